@@ -44,6 +44,12 @@ def handle : List String → String
     match o.toNat?, parseOptNat? l, n.toNat? with
     | some off, some lim, some k => "ok " ++ showNatList (slice off lim (List.range k))
     | _, _, _ => "bad-op"
+  | ["sliceafter", k, a, b, n] =>
+    -- rows[k:][a:b] as the limit/offset pair _make_slice must produce: offset k+a, limit b-a
+    match k.toNat?, a.toNat?, parseOptNat? b, n.toNat? with
+    | some off, some start, some stop, some cnt =>
+      "ok " ++ showNatList (slice (off + start) (stop.map (· - start)) (List.range cnt))
+    | _, _, _, _ => "bad-op"
   | ["form", f, o, l, n] =>
     match parseOptNat? o, parseOptNat? l, n.toNat? with
     | some off, some lim, some k =>
